@@ -76,10 +76,47 @@ def flat(g):
     return [nodes, edges]
 
 
+# How a call is written (review 3: default arguments and positional forms were never exercised).  The documented
+# defaults are written down HERE, not read from the signatures: a changed default must show as a wrong answer.
+DOC_DEFAULT = {"get_unreachable_nodes.radius": 1, "prune_its_to_rc.radius": 0, "prune_its_to_rc.insert_hydrogens": True,
+               "ITS.prune.radius": 1, "ITS.prune.insert_hydrogens": True}
+CALL_FORMS = {}
+
+
+def call_form(fn, *key):
+    """0 = keywords, 1 = positional, 2 = arguments that equal the documented default are omitted; a fixed function
+    of the input, so a replay makes the same call"""
+    import zlib
+    f = zlib.crc32(repr((fn,) + key).encode()) % 3
+    return f
+
+
+def _note(fn, form, omitted):
+    k = "%s:%s" % (fn, ["keyword", "positional", "defaults_omitted" if omitted else "keyword(no default to omit)"][form])
+    CALL_FORMS[k] = CALL_FORMS.get(k, 0) + 1
+
+
 def impl_unreachable(g, starts, r):
     from fgutils.utils import get_unreachable_nodes
-    out = get_unreachable_nodes(g, list(starts), radius=r)
+    form = call_form("get_unreachable_nodes", len(g), tuple(starts), r)
+    if form == 1:
+        out = get_unreachable_nodes(g, list(starts), r)
+    elif form == 2 and r == DOC_DEFAULT["get_unreachable_nodes.radius"]:
+        out = get_unreachable_nodes(g, list(starts))
+    else:
+        out = get_unreachable_nodes(g, list(starts), radius=r)
+    _note("get_unreachable_nodes", form, r == DOC_DEFAULT["get_unreachable_nodes.radius"])
     return sorted({int(x) for x in out})
+
+
+def _prune_args(fn, form, r, ins):
+    """(args, kwargs) after the graph / self"""
+    if form == 1:
+        return (r, ins), {}
+    kw = {"radius": r, "insert_hydrogens": ins}
+    if form == 2:
+        kw = {k: v for k, v in kw.items() if v != DOC_DEFAULT["%s.%s" % (fn, k)]}
+    return (), kw
 
 
 def impl_rc(g):
@@ -92,13 +129,22 @@ def impl_prune(g, r, ins, via, its=None):
     if its is not None:
         # a long-lived ITS object (same-object histories): its.graph is g at the time of the call
         assert its.graph is g and via == "ITS.prune"
-        its.prune(radius=r, insert_hydrogens=ins)
+        form = call_form("ITS.prune", len(g), r, ins)
+        args, kw = _prune_args("ITS.prune", form, r, ins)
+        _note("ITS.prune", form, len(kw) < 2 and form == 2)
+        its.prune(*args, **kw)
         return flat(its.graph)
     if via == "ITS.prune":
         its = ITS(g.copy())             # complete_aam already ran when the case was built: no change
-        its.prune(radius=r, insert_hydrogens=ins)
+        form = call_form("ITS.prune", len(g), r, ins)
+        args, kw = _prune_args("ITS.prune", form, r, ins)
+        _note("ITS.prune", form, len(kw) < 2 and form == 2)
+        its.prune(*args, **kw)
         return flat(its.graph)
-    return flat(prune_its_to_rc(g, radius=r, insert_hydrogens=ins))
+    form = call_form("prune_its_to_rc", len(g), r, ins)
+    args, kw = _prune_args("prune_its_to_rc", form, r, ins)
+    _note("prune_its_to_rc", form, len(kw) < 2 and form == 2)
+    return flat(prune_its_to_rc(g, *args, **kw))
 
 
 # ---------------------------------------------------------------------------
@@ -856,6 +902,7 @@ def run(tier, seed):
             post_check(r, r.evaluate(cs), counters)
     r.driver = None
     bad_wf = counters["bad_wf"]
+    r.extra_cov["call_forms (documented defaults omitted / positional / keyword; counted in this process)"] = dict(sorted(CALL_FORMS.items()))
     r.extra_cov["inputs_violating_theorem_hypotheses"] = bad_wf
     r.extra_cov["judged_by_specification_only"] = r.dist.get("tag:judged=spec-only", 0)
     r.extra_cov["same_object_history_calls"] = sum(v for k, v in r.dist.items() if k.startswith("tag:history:op="))
